@@ -28,7 +28,7 @@ REAL = ["bec2format.bf3file (set_config, derive_comments_from_config, writer, re
         "(derive_auth_blocks_from_config, Bec2File)", "bec2format.configid", "plug-in + pyaes"]
 STUBS = ["medium: SimFS (ENOSPC for failed writes, restart)", "RNG: SimRng", "RefCfg: model of components / comments / "
          "block kinds + own TLV block decoder"]
-PROBES = ["variant-package-sharing-components", "runs-with-assertions-disabled", "bf3-write-default-key", "edit-through-kept-list-reference", "two-packages-aliasing-check", "second-file-object", "second-set-config", "component-without-type-before-config", "set-config-after-reload", "derive-after-reload",
+PROBES = ["configuration-component-of-foreign-make", "variant-package-sharing-components", "runs-with-assertions-disabled", "bf3-write-default-key", "edit-through-kept-list-reference", "two-packages-aliasing-check", "second-file-object", "second-set-config", "component-without-type-before-config", "set-config-after-reload", "derive-after-reload",
           "failed-write", "stale-derived-comment-candidate", "derive-blocks-on-empty", "update-block-expected",
           "insert-behind-config"]
 ASSUMPTIONS = ["identifier existence rule taken from the C12 text: version present and (numeric scheme complete or name present)"]
@@ -49,6 +49,10 @@ def gen(st, tier):
             c_.insert(w.randint(0, len(c_)), [0x0202, 0x82, None])
         if w.random() < 0.15:
             c_.insert(w.randint(0, len(c_)), [w.choice([0x1111, 0x0301, 0x7FFF]), 0x7F, None])
+        for e_ in c_:
+            # the bus-address flag in other spellings: zero, empty, two bytes, "delete this value"
+            if e_[0] == 0x0620 and e_[1] == 0x20 and w.random() < 0.5:
+                e_[2] = w.choice(["00", "", "0000", "02", None])
     ops = []
     n = w.choice([3, 4, 5, 6, 8, 10, 12])
     for _ in range(n):
@@ -73,6 +77,14 @@ def gen(st, tier):
         elif r < 0.76:
             ops.append(["comment", w.choice(["FirmwareId", "Note", "X"]),
                         w.choice([None, "1053", "abc def", "v: 2"])])
+        elif r < 0.765 and not any(o[0] in ("set_config", "add_cfg", "reload", "reload_bf3") for o in ops):
+            # the package already holds a configuration component that this library did not make (factory default,
+            # another tool): type CONFIGURATION, its own tag set.  Only before the first set_config of the history.
+            ops.append(["add_cfg", w.choice(["front", "mid", "end"]),
+                        {"desc": w.choice([[[0xC3, "03"]], [[0xC3, "03"], [0xC1, "03"]], [[0xC3, "03"], [0xC2, "00"]],
+                                           [[0xC1, "03"], [0xC3, "03"], [0xC4, "0101"]]]),
+                         "blob": {"len": w.choice([1, 5, 16, 30]), "fill": "rand", "tail0": 0, "s": w.getrandbits(32)},
+                         "alen": None, "enc": False}])
         elif r < 0.775:
             # a per-device variant: a second package made from the same component objects gets another configuration
             ops.append(["variant", w.randrange(5)])
@@ -373,6 +385,16 @@ def run(case):
                 else:
                     bf3.components.insert(pos, comp)
                 out.ev("add_comp", where, 0xC3 in comp.description)
+            elif k == "add_cfg":
+                _, where, cspec = op
+                if any(is_cfg_comp(c) for c in bf3.components):
+                    continue
+                comp = env.bf3file.Bf3Component({int(t): bytes.fromhex(v) for t, v in cspec["desc"]},
+                                                G.make_blob(cspec["blob"]), cspec["alen"])
+                n = len(bf3.components)
+                bf3.components.insert({"front": 0, "mid": n // 2, "end": n}[where], comp)
+                out.probes["configuration-component-of-foreign-make"] += 1
+                out.ev("add_cfg", where, len(comp.description))
             elif k == "comment":
                 _, key, val = op
                 if val is None:
